@@ -75,6 +75,15 @@ pub fn programs(tier: Tier) -> ProgramSet {
         s.generics = vec![Generic::Type { name: "T".into(), bounds: "Default".into() }];
         s.variants[0].kind = Kind::Tuple(vec![FieldTy::T]);
         add(format!("N={} generic<T: Default>", n), s);
+        // the shared generic / payload / declaration-context shapes (one program each, N = 3 only)
+        if n == 3 {
+            for d in crate::devs::rich_generic_devs(false).into_iter().chain(crate::devs::context_devs()) {
+                let mut s = EnumSpec::base(n);
+                if (d.apply)(&mut s) {
+                    add(format!("N={} + {}", n, d.label), s);
+                }
+            }
+        }
     }
     // SCALE: larger enums (cursor pairs up to (N+1)(N+2)/2 states per live iterator)
     let scale: &[usize] = if tier == Tier::Quick { &[9, 17, 256] } else { &[9, 17, 33, 65, 255, 256, 257] };
@@ -110,8 +119,8 @@ pub fn render(spec: &EnumSpec) -> String {
     o.push_str(&render_enum(spec, &["Debug", "strum::EnumIter"]));
     o.push_str(&format!("type EC = {}{};\n", spec.name, spec.generics_inst()));
     o.push_str(&render_vidx(spec, "EC", "vidx"));
-    // Send + Sync regardless of the type parameters: instantiate with Rc<u8>
-    let rc = if spec.generics.is_empty() { "EC".to_string() } else { format!("{}{}", spec.name, spec.generics_inst_with("std::rc::Rc<u8>")) };
+    // Send + Sync regardless of the type parameters: instantiate them with a Copy + Default type that is neither
+    let rc = if spec.generics.is_empty() { "EC".to_string() } else { format!("{}{}", spec.name, spec.generics_inst_with("vf_core::NotSend")) };
     o.push_str(&format!(
         r#"fn _assert_send_sync<X: Send + Sync>() {{}}
 fn _assert_bounds<X: Iterator + Clone + DoubleEndedIterator + ExactSizeIterator + core::iter::FusedIterator>() {{}}
